@@ -111,3 +111,26 @@ func BadOr(t *table, k uint64, name string, qt uint16) []byte {
 
 // BadReturn hands the raw value on without being a listed raw lookup.
 func BadReturn(t *table, k uint64) *Entry { return t.raw(k) }
+
+// GoodNamedBool: the verdict is kept in a named boolean built with && (a phi).
+func GoodNamedBool(t *table, k uint64, name string, qt uint16) []byte {
+	e := t.raw(k)
+	usable := e != nil && e.qtype == qt && sameName(e.name, name)
+	if !usable {
+		return nil
+	}
+	return serve(e)
+}
+
+// BadNamedBool: the named boolean is an || of the two dimensions.
+func BadNamedBool(t *table, k uint64, name string, qt uint16) []byte {
+	e := t.raw(k)
+	if e == nil {
+		return nil
+	}
+	usable := e.qtype == qt || sameName(e.name, name)
+	if !usable {
+		return nil
+	}
+	return serve(e)
+}
